@@ -279,5 +279,36 @@ theorem uvSphereUnwelded_volume {rows cols : Nat} (r : ℝ) (hR : 2 ≤ rows) (h
     volume6_map, uvUnwelded_map_src]
   exact uvSphere_volume r hR hC
 
+/-! ## Non-vacuity: every hypothesis set above is satisfiable (concrete instances) -/
+
+example := uvSphereUnwelded_closed_mod_merge (rows := 3) (cols := 4) (by decide) (by decide)
+example := uvSphereUnwelded_outward (rows := 3) (cols := 4) (r := 2) (by norm_num) (by decide) (by decide)
+example := sphere_normals_outward (rows := 6) (cols := 5) (r := 1 / 2) (by norm_num) (by decide) (by decide)
+example := cube_outward (w := 1) (h := 2) (d := 3) (by norm_num) (by norm_num) (by norm_num)
+example := cube_normals_outward (w := 1) (h := 2) (d := 3) (by norm_num) (by norm_num) (by norm_num)
+example := cubeQuads_outward (w := 1) (h := 2) (d := 3) (by norm_num) (by norm_num) (by norm_num)
+example := cubeQuads_normals_outward (w := 1) (h := 2) (d := 3) (by norm_num) (by norm_num) (by norm_num)
+example := cylinder_normals_outward (sides := 7) (r := 1) (H := 2) (by norm_num) (by norm_num) (by decide)
+example := uvSphere_inscribed (rows := 4) (cols := 6) 3 (by decide) (by decide)
+example := cylinder_volume (sides := 12) 1 2 (by decide)
+example := cylinder_volume_bounds (sides := 12) (r := 1) (H := 2) (by norm_num) (by norm_num) (by decide)
+example := uvSphere_volume (rows := 10) (cols := 10) (1 / 2) (by decide) (by decide)
+example := uvSphere_volume_bounds (rows := 10) (cols := 10) (r := 1 / 2) (by norm_num) (by decide) (by decide)
+example := uvSphereUnwelded_volume (rows := 10) (cols := 10) (1 / 2) (by decide) (by decide)
+example := hemisphere_volume (rows := 20) (cols := 20) (1 / 2) (by decide) (by decide)
+example := hemisphere_volume_bounds (rows := 20) (cols := 20) (r := 1 / 2) (by norm_num) (by decide) (by decide)
+example := uvSphere_positions_distinct (rows := 2) (cols := 3) (r := 1) (v := 0) (w := 4) (by norm_num) (by decide)
+  (by decide) (by decide) (by decide)
+example := hemisphere_positions_distinct (rows := 2) (cols := 3) (r := 1) (v := 0) (w := 4) (by norm_num) (by decide)
+  (by decide) (by decide) (by decide)
+example := uvSphereUnwelded_merge_exact (rows := 3) (cols := 3) (r := 1) (v := 0) (w := 6) (by norm_num) (by decide)
+  (by decide) (by decide) (by decide)
+example := cylinder_merge_exact (sides := 5) (r := 1) (H := 1) (v := 10) (w := 0) (by norm_num) (by norm_num)
+  (by decide) (by decide) (by decide)
+example := cubeQuads_merge_exact (w := 1) (h := 1) (d := 1) (v := 0) (v' := 11) (by norm_num) (by norm_num)
+  (by norm_num) (by decide) (by decide)
+example := cubeWelded_positions_distinct (w := 1) (h := 1) (d := 1) (v := 0) (v' := 7) (by norm_num) (by norm_num)
+  (by norm_num) (by decide) (by decide)
+
 end C18
 end PolyVerif
